@@ -19,8 +19,6 @@ def run(ctx):
             from vlib import MachineryError
             raise MachineryError("LRU_Ind reaches %d states, LRU %d: the restated copy has drifted"
                                  % (r1["distinct"], r0["distinct"]))
-        ctx.tlc_mc(fam, "LRU_IndRef", "LRU_IndRef_big.cfg", workers=16, timeout=3000,
-                   label="refinement LRU -> LRU_Ind, 4 keys")
         ctx.apalache_ind(fam, "LRU_Ind", cinit="CInit", timeout=2400,
                          label="LRU_Ind: IndInv inductive; capacity, charges, values symbolic, 3 keys")
     # 2. plans out of the spec
